@@ -72,6 +72,12 @@ fn stub_tr_enabled(_m: &tracing::Metadata<'static>, _i: tracing::subscriber::Int
 }
 fn stub_tr_dispatch<'a: 'a>(_m: &'static tracing::Metadata<'static>, _f: &'a tracing::field::ValueSet<'_>) {}
 
+/// `Reader::new` captures the current tracing / qlog spans (thread-locals, dispatcher): not encodable
+/// (kani-compiler ICE). After a connection error no Reader is ever created; reaching the stub is reported.
+fn stub_reader_new<TX>(_inner: ArcRecver<TX>) -> Reader<TX> {
+    panic!("a Reader was created after the connection error")
+}
+
 fn any_kind() -> ErrorKind {
     let k: u8 = kani::any();
     match k % 6 {
@@ -251,6 +257,7 @@ macro_rules! poison_harness {
         #[kani::stub(tracing::callsite::DefaultCallsite::interest, stub_tr_interest)]
         #[kani::stub(tracing::__macro_support::__is_enabled, stub_tr_enabled)]
         #[kani::stub(tracing::Event::dispatch, stub_tr_dispatch)]
+        #[kani::stub(crate::recv::Reader::new, stub_reader_new)]
         fn $name() {
             poison_step::<$w, $s>();
         }
